@@ -130,6 +130,41 @@ func Run(r *common.Run) error {
 				e.Do(cs, "fault-callback")
 			}
 		}
+		// The kind of error value is a dimension of every injected failure: a time-out
+		// (net.Error) with the context alive, a temporary error, a closed connection,
+		// context.DeadlineExceeded / context.Canceled / io.EOF themselves. Whatever the
+		// value, a failed step fails the establishment. Quick tier: the time-out kind and one
+		// rotating kind per fault point; thorough: all of them.
+		for k := 0; k <= ops; k++ {
+			for _, ek := range errKindsFor(r, bi+k) {
+				cs := base
+				cs.ErrKind = ek
+				cs.Fault = fmt.Sprint(k)
+				e.Do(cs, "fault-io/"+string(ek))
+				if k%3 == 0 {
+					cs.Fault = fmt.Sprint(k, "+")
+					e.Do(cs, "fault-io/"+string(ek))
+				}
+			}
+		}
+		for i := range base.Cfg {
+			for kind := 0; kind < 3; kind++ {
+				for _, ek := range errKindsFor(r, bi+i+kind) {
+					cs := base
+					cs.ErrKind = ek
+					cs.Cfg = append([]c01.Beh(nil), base.Cfg...)
+					switch kind {
+					case 0:
+						cs.Cfg[i].ListErr = true
+					case 1:
+						cs.Cfg[i].ParseErr = true
+					default:
+						cs.Cfg[i].NegErr = true
+					}
+					e.Do(cs, "fault-callback/"+string(ek))
+				}
+			}
+		}
 		// Cancellation, with every kind of context whose Done() can fire: WithCancel, a far
 		// deadline with an explicit cancel, a timeout nested in a cancelled parent, and a near
 		// deadline that expires (the last one costs real time: first handshake only in the quick
@@ -170,7 +205,7 @@ func Run(r *common.Run) error {
 			e.Do(cs, "blocked-forever")
 		}
 	}
-	r.Exhaustive = append(r.Exhaustive, "every read/write index (single and permanent failure), every end of input, every failing callback, every cancellation instant and every operation blocking with cancellation while blocked (each with four kinds of context: WithCancel, far deadline + cancel, timeout in a cancelled parent, near deadline expiring), of 10 instrumented standard handshakes (STARTTLS+auth+voluntary+bind; both roles; TCP/WebSocket; c2s/s2s; pre-secured)")
+	r.Exhaustive = append(r.Exhaustive, "every read/write index (single and permanent failure), every end of input, every failing callback, each failure with the kinds of error value "+errKindsNote(r)+", every cancellation instant and every operation blocking with cancellation while blocked (each with four kinds of context: WithCancel, far deadline + cancel, timeout in a cancelled parent, near deadline expiring), of 10 instrumented standard handshakes (STARTTLS+auth+voluntary+bind; both roles; TCP/WebSocket; c2s/s2s; pre-secured)")
 	runReal(r)
 	runComponent(e)
 	n := r.Pick(3000, 40000)
@@ -184,6 +219,9 @@ func Run(r *common.Run) error {
 		if cs.Fault != "-" && r.Rnd.Chance(1, 2) {
 			cs.Ctx = []byte{'d', 'p'}[r.Rnd.Intn(2)]
 		}
+		if r.Rnd.Chance(1, 2) {
+			cs.ErrKind = c01.ErrKinds[r.Rnd.Intn(len(c01.ErrKinds))]
+		}
 		if (strings.HasPrefix(cs.Fault, "C") || strings.HasPrefix(cs.Fault, "B")) && c01.SkipForStalls() {
 			continue
 		}
@@ -194,6 +232,23 @@ func Run(r *common.Run) error {
 	}
 	r.Notes = append(r.Notes, fmt.Sprintf("%d negotiation runs of the real NewSession/ReceiveSession", e.N))
 	return nil
+}
+
+// errKindsFor: the kinds of error value a fault point is run with besides the plain one: all
+// of them in the thorough tier; the time-out kind plus one rotating kind in the quick tier.
+func errKindsFor(r *common.Run, i int) []byte {
+	if !r.Quick() {
+		return c01.ErrKinds
+	}
+	rot := c01.ErrKinds[1+(i+int(r.Seed%7))%(len(c01.ErrKinds)-1)]
+	return []byte{'T', rot}
+}
+
+func errKindsNote(r *common.Run) string {
+	if r.Quick() {
+		return "plain, net.Error time-out with a live context, and one of {temporary net.Error, closed connection, io.ErrUnexpectedEOF, context.DeadlineExceeded, context.Canceled, io.EOF} in rotation"
+	}
+	return "plain, net.Error time-out with a live context, temporary net.Error, closed connection, io.ErrUnexpectedEOF, context.DeadlineExceeded, context.Canceled, io.EOF"
 }
 
 // witnesses are minimal failing inputs of C04 found so far.
